@@ -230,7 +230,7 @@ def _judge_labels(r, tag, labels, centers_idx, centers, P, w, adm):
     return True
 
 
-def _fit(P, w, cut=None, shell=None, cell=None, scale=1.0, used=False):
+def _fit(P, w, cut=None, shell=None, cell=None, scale=1.0, used=False, late_cell=False):
     from skmatter.clustering import QuickShift
 
     kw = {}
@@ -240,6 +240,12 @@ def _fit(P, w, cut=None, shell=None, cell=None, scale=1.0, used=False):
         m = QuickShift(dist_cutoff_sq=np.array(cut, float), scale=scale, **kw)
     else:
         m = QuickShift(gabriel_shell=shell, **kw)
+    if cell is not None and late_cell:
+        # the same estimator configured in another order of public steps: constructed first, cell supplied afterwards
+        d0 = {"cell_length": None}
+        m = QuickShift(dist_cutoff_sq=np.array(cut, float), scale=scale, metric_params=d0) if cut is not None else QuickShift(gabriel_shell=shell, metric_params=d0)
+        d0["cell_length"] = list(cell)
+        m.cell = list(cell)
     if used:  # a USED estimator: fitted before on the mirrored points with reversed weights
         m.fit(np.array(P, float)[::-1] * -1.0 + 0.5, samples_weight=np.array(w, float)[::-1].copy())
     m.fit(np.array(P, float), samples_weight=np.array(w, float))
@@ -271,7 +277,8 @@ def check(case):
     def run(tag, adm, **kw):
         nonlocal n_multi, n_moved
         try:
-            m = _fit(P, w, cell=cell, used=bool(rank[0] % 2), **kw)  # every other ranking on a USED estimator
+            # every other ranking on a USED estimator; every third with the cell supplied after construction
+            m = _fit(P, w, cell=cell, used=bool(rank[0] % 2), late_cell=bool(rank[-1] % 3 == 0), **kw)
         except Exception as e:
             r.fail("crash:%s" % type(e).__name__, "%s: %r" % (tag, e))
             return None
